@@ -20,6 +20,7 @@ type Case struct {
 	Lookups   []B    `json:"lookups,omitempty"`
 	NoParse   bool   `json:"noparse,omitempty"`
 	Late      bool   `json:"late,omitempty"` // group entries are added to their group before they are populated
+	FrameOnly bool   `json:"frameOnly,omitempty"` // outside the domain of the content checks (entries with nothing / no first field populated): framing only
 }
 
 type ParseObs struct {
@@ -52,6 +53,7 @@ type CaseObs struct {
 	Lookups      []LookupObs `json:"lookups"`
 	Panic        string      `json:"panic"`
 	StrictRT     bool        `json:"strictRT"` // compare the parse with the message itself even if the wire is not Wire(m)
+	FrameOnly    bool        `json:"frameOnly"`
 }
 
 func emptyParse(tmpl *Msg) ParseObs {
@@ -133,7 +135,7 @@ func parseInto(tmpl *Msg, wire []byte, strict bool) ParseObs {
 // RunCase executes one case against the real library.
 func RunCase(c *Case) (*CaseObs, error) {
 	c.M.Norm()
-	o := &CaseObs{K: "case", ID: c.ID, M: c.M, Lookalike: c.Lookalike, Wire: B{}, Lookups: []LookupObs{}}
+	o := &CaseObs{K: "case", ID: c.ID, M: c.M, Lookalike: c.Lookalike, Wire: B{}, Lookups: []LookupObs{}, FrameOnly: c.FrameOnly}
 	tgt := &c.M
 	o.SameTemplate = true
 	if c.Target != nil {
@@ -196,6 +198,39 @@ func RunCase(c *Case) (*CaseObs, error) {
 	return o, nil
 }
 
+// RunAgain serializes one message object twice and records the second result (framing only).
+func RunAgain(c *Case) *CaseObs {
+	c.M.Norm()
+	o := &CaseObs{K: "case", ID: c.ID + "/again", M: c.M, Wire: B{}, Lookups: []LookupObs{}, FrameOnly: true, SameTemplate: true, Target: 0}
+	o.Parse, o.Nonstrict = emptyParse(&c.M), emptyParse(&c.M)
+	LateEntries = c.Late
+	msg, err := Build(&c.M, false)
+	LateEntries = false
+	if err != nil {
+		o.SerErr = err.Error()
+		return o
+	}
+	var wire []byte
+	err, pn := safely(func() error {
+		if _, e := msg.ToBytes(); e != nil {
+			return e
+		}
+		var e error
+		wire, e = msg.ToBytes()
+		return e
+	})
+	if pn != "" {
+		o.Panic, o.SerErr = pn, "panic: "+pn
+		return o
+	}
+	if err != nil {
+		o.SerErr = err.Error()
+		return o
+	}
+	o.SerOk, o.Wire = true, ToB(wire)
+	return o
+}
+
 // ---------------------------------------------------------------------------------------
 // damage: the whole one-byte neighbourhood of a valid message (C03)
 
@@ -241,6 +276,9 @@ func acceptsOrCrashes(tmpl *Msg, d []byte, strict bool) (bool, string) {
 // RunDamage tries every single-byte substitution, insertion, deletion and proper prefix.
 // full=false restricts substitution/insertion values to a representative byte set.
 func RunDamage(id string, tmpl *Msg, wire []byte, full bool) *DamageObs {
+	// the base is a VALID message: BodyLength and CheckSum are recomputed here, independently of the library (when the library
+	// frames correctly these are the bytes it produced; when it does not, that is C01's finding and must not stop this check)
+	wire = Reframe(tmpl.Tags, wire)
 	o := &DamageObs{K: "damage", ID: id, Tags: tmpl.Tags, Wire: ToB(wire), Accepted: []Accepted{}, Crashed: []Accepted{}}
 	vals := make([]int, 0, 256)
 	if full {
@@ -619,6 +657,7 @@ func wellFormedForParse(m *Msg) bool {
 // RunDamageConcurrent: damaged variants are parsed while other goroutines serialize and parse the valid message
 // (the encoder and the decoder share the checksum routine): still never accepted.
 func RunDamageConcurrent(id string, tmpl *Msg, wire []byte, iters int) *DamageObs {
+	wire = Reframe(tmpl.Tags, wire)
 	o := &DamageObs{K: "damage", ID: id, Tags: tmpl.Tags, Wire: ToB(wire), Accepted: []Accepted{}, Crashed: []Accepted{}}
 	var variants [][]byte
 	for _, pos := range []int{len(wire) / 3, len(wire) / 2, 2 * len(wire) / 3} {
